@@ -13,6 +13,7 @@ import (
 	"sort"
 	"strconv"
 	"strings"
+	"time"
 
 	git "gopkg.in/src-d/go-git.v4"
 	"gopkg.in/src-d/go-git.v4/plumbing"
@@ -48,8 +49,10 @@ type input struct {
 	thr     int
 	keep    []int
 	h       *synth.Hist        // conflict-free history (full), or nil
+	pd      *pdInfo            // path events of h (kinds *-pathdel), or nil
 	lin     []synth.LinearStep // linear history (full) when h == nil
 	light   bool               // large case: the sparse histories and final files are not rendered
+	reuse   bool               // the BurndownAnalysis instance has analysed another repository before (R3-1)
 }
 
 var hibDir string
@@ -482,6 +485,9 @@ func runPipeline(in *input, repo *git.Repository, commits []*object.Commit) (obs
 	}
 	p := hercules.NewPipeline(repo)
 	b := &leaves.BurndownAnalysis{}
+	if in.reuse {
+		warmUp(b)
+	}
 	p.DeployItem(b)
 	lg := &recLog{}
 	p.DeployItem(&recorder{log: lg})
@@ -655,7 +661,13 @@ func emit(c *Config, in *input) {
 		rs := r.Sx()
 		rs.List[0] = A("rhist")
 		histFields = []Sx{in.h.Sx(), rs}
-		repo, commits = r.Build()
+		if in.pd != nil {
+			rpd := in.pd.restrict(in.keep, in.h.N)
+			histFields = append(histFields, in.pd.sx("pd", in.h), rpd.sx("rpd", r))
+			repo, commits = pdBuild(r, rpd)
+		} else {
+			repo, commits = r.Build()
+		}
 	} else {
 		r := restrictLinear(in.lin, in.keep)
 		nt = len(r) >= 3
@@ -673,6 +685,9 @@ func emit(c *Config, in *input) {
 	fields = append(fields, T("nt", B(nt)), T("g", I(in.g)), T("s", I(in.s)), T("files", B(in.files)),
 		T("people", B(in.people)), T("hib", I(in.hib)), T("hibmode", A(in.hibmode)), T("thr", I(in.thr)),
 		T("keep", Ints(in.keep).List...))
+	if in.reuse {
+		fields = append(fields, T("reuse", I(1)))
+	}
 	fields = append(fields, histFields...)
 	fields = append(fields, T("obs", obs))
 	c.Emit(fields...)
@@ -703,6 +718,7 @@ func params(rng *rand.Rand, in *input, allowHib bool) {
 	}
 	in.files = rng.Intn(2) == 0
 	in.people = rng.Intn(2) == 0
+	in.reuse = rng.Intn(6) == 0
 	in.hibmode = "none"
 	if allowHib && rng.Intn(4) == 0 {
 		in.hib = 1 + rng.Intn(3)
@@ -891,6 +907,7 @@ func replay(c *Config) {
 		in.people = fieldInt(cs, "people", 0) != 0
 		in.hib = fieldInt(cs, "hib", 0)
 		in.thr = fieldInt(cs, "thr", 0)
+		in.reuse = fieldInt(cs, "reuse", 0) != 0
 		if f, ok := cs.Field("hibmode"); ok && len(f.Args()) == 1 {
 			in.hibmode = f.Args()[0].Atom
 		}
@@ -918,6 +935,9 @@ func replay(c *Config) {
 		if f, ok := cs.Field("hist"); ok {
 			in.h = synth.HistFromSx(f)
 			n = in.h.N
+			if pf, ok := cs.Field("pd"); ok {
+				in.pd = pdFromSx(pf)
+			}
 		} else if f, ok := cs.Field("linear"); ok {
 			in.lin = synth.LinearFromSx(f)
 			n = len(in.lin)
@@ -963,6 +983,10 @@ func main() {
 			scaleFamily(c)
 		case "linscale":
 			linScaleFamily(c)
+		case "lincombo":
+			linComboFamily(c)
+		case "pathdel":
+			pathDelFamily(c)
 		}
 		return
 	}
@@ -1023,10 +1047,57 @@ func main() {
 	optFamily(c)
 	scaleFamily(c)
 	linScaleFamily(c)
+	linComboFamily(c)
+	pathDelFamily(c)
 	for i := c.Count(480, 10000); i > 0; i-- {
 		lin := synth.GenLinear(rng, 10)
 		in := &input{kind: "lin", lin: lin, keep: allIdx(len(lin))}
 		params(rng, in, false)
 		emit(c, in)
 	}
+}
+
+// warmUp lets the analysis instance analyse another repository first (Configure / Initialize / Run of a different
+// pipeline): a history with the path names of the generated cases in which a file is renamed and deleted on a branch,
+// re-created, flipped to binary, with three authors, file and people tracking on.  Whatever it leaves behind in the
+// instance (deletions, renames, histories, files, ticks) must be reset by the Initialize of the observed run.
+var warmRepo *git.Repository
+var warmCommits []*object.Commit
+
+func warmUp(b *leaves.BurndownAnalysis) {
+	defer func() { recover() }()
+	if warmRepo == nil {
+		txt := func(n int, tag string) []byte {
+			var d []byte
+			for i := 0; i < n; i++ {
+				d = append(d, fmt.Sprintf("%s%d\n", tag, i)...)
+			}
+			return d
+		}
+		f := func(path string, data []byte) synth.FileSpec { return synth.FileSpec{Path: path, Data: data} }
+		at := func(day, c int) time.Time { return time.Unix(synth.BaseTime+int64(day)*86400+int64(c), 0) }
+		cs := []synth.CommitSpec{
+			{AuthorName: "dev0", AuthorEmail: "dev0@x", AuthorWhen: at(0, 0), Files: []synth.FileSpec{f("a", txt(9, "A")), f("b", txt(4, "B")), f("c", txt(3, "C")), f("big", txt(20, "G"))}},
+			{Parents: []int{0}, AuthorName: "dev1", AuthorEmail: "dev1@x", AuthorWhen: at(1, 1), Files: []synth.FileSpec{f("g", txt(9, "A")), f("b", txt(4, "B")), f("c", append(txt(3, "C"), 0)), f("big", txt(20, "G"))}},
+			{Parents: []int{0}, AuthorName: "dev2", AuthorEmail: "dev2@x", AuthorWhen: at(1, 2), Files: []synth.FileSpec{f("a", txt(9, "A")), f("b", txt(6, "B")), f("c", txt(3, "C")), f("big", txt(20, "G"))}},
+			{Parents: []int{1}, AuthorName: "dev1", AuthorEmail: "dev1@x", AuthorWhen: at(2, 3), Files: []synth.FileSpec{f("b", txt(4, "B")), f("c", append(txt(3, "C"), 0)), f("a", txt(2, "N"))}},
+			{Parents: []int{3, 2}, AuthorName: "dev0", AuthorEmail: "dev0@x", AuthorWhen: at(3, 4), Files: []synth.FileSpec{f("b", txt(6, "B")), f("c", append(txt(3, "C"), 0)), f("a", txt(2, "N"))}},
+			{Parents: []int{4}, AuthorName: "dev2", AuthorEmail: "dev2@x", AuthorWhen: at(9, 5), Files: []synth.FileSpec{f("b", txt(1, "B")), f("p0", txt(2, "P"))}},
+		}
+		warmRepo, warmCommits = synth.BuildRepo(cs)
+	}
+	p := hercules.NewPipeline(warmRepo)
+	p.DeployItem(b)
+	facts := map[string]interface{}{
+		hercules.ConfigLogger:            silent{},
+		hercules.ConfigPipelineCommits:   warmCommits,
+		leaves.ConfigBurndownGranularity: 3,
+		leaves.ConfigBurndownSampling:    2,
+		leaves.ConfigBurndownTrackFiles:  true,
+		leaves.ConfigBurndownTrackPeople: true,
+	}
+	if err := p.Initialize(facts); err != nil {
+		return
+	}
+	p.Run(warmCommits)
 }
